@@ -238,6 +238,12 @@ theorem C02_question_scalar_paths_differ :
     .nil (by decide) (by intro _ ⟨r', h⟩; simp [TextReader.renderLex, TextReader.Lexeme.text, TextReader.opText] at h)).2
   simpa [Jomini.TextE2E.bytesQuestion, TextReader.renderLex, TextReader.Lexeme.text, TextReader.opText, TextReader.bomBytes] using hk
 
+/-- a nested object whose FIRST field is a header field (`x={ a=rgb { 1 } b=2 }`, a shape of texttape's full document
+type only): not a semantic obstacle -- from the bytes both models return the same value -- but outside the end-to-end
+theorems, whose carrier `JFields` cannot express it -/
+example : Jomini.TextE2E.bytesAgree (.st [([120], .st [([97], .str), ([98], .u8)])]) Jomini.TextE2E.bytesHdrFirst = true := by
+  decide +kernel
+
 /-- Mixed containers stay outside the document type, the paths differ there: from the BYTES
 `a={ b=1 c d }` into `st(a:map(str))` both parsers succeed, the tape path (synthetic `remainder` key
 with the rest as an array) refuses, the reader path reads `c = d` as a field. -/
